@@ -3,3 +3,14 @@ check('C13', 'exploration', 'model-based property testing (Hypothesis op-list hi
       'tracepoints that act is observed behaviourally at every pool location and must equal the model. Both directions '
       '(nothing extra, nothing missing) plus args/metrics given at registration.',
       'Listener updates are applied inline; pool of 3 locations, <= 40 ops.')
+check('C03', 'exploration', 'property-based testing: generated programs x tracepoint sets, event-stream oracle via interposed trace function',
+      'Every trace event of a generated program is seen first by an interposed trace function which decides by the '
+      'property\'s own definition which tracepoints are due, then delegates to the real handler; what the recorders '
+      'received during that delegation must equal what was due - per event, both directions, all four action kinds.',
+      'Paths are basenames; rate limits off; one runnable program thread at a time; generator resumes may or may not fire.')
+check('C06', 'exploration', 'property-based testing: generated object graphs (hostile catalogue) on real paused frames, invariant oracle',
+      'Object graphs over the whole value catalogue (hostile dunders, no-__dict__ objects, non-UTF-8 text, iterators, '
+      'non-str keys) bound to locals / watch / captured return / captured exception with 1-4 actions on one event; '
+      'every due snapshot must exist, convert and serialise, keep sentinels intact, list every local, be closed, not '
+      'share tables and not consume iterators.',
+      'Frames are suspended-generator frames driven through TriggerHandler.trace_call directly; hostile dunders are stateless.')
